@@ -83,13 +83,11 @@ def shrink(ctx: ctxmod.Ctx, camp: Campaign, key: str, n: int, seed: int, budget_
     @hypothesis.given(camp.strategy)
     def test(spec):
         d = ctxmod.digest(spec)
-        if d in seen:
-            raise _Found()
-        if time.time() - t0 > budget_s:
-            return
-        if probe(spec):
-            seen[d] = spec
-            order.append(d)
+        hit = d in seen or (time.time() - t0 <= budget_s and probe(spec))
+        if hit:  # a single raise site: Hypothesis identifies a failure by exception type and location
+            if d not in seen:
+                seen[d] = spec
+                order.append(d)
             raise _Found()
 
     try:
